@@ -32,35 +32,55 @@ def parseWal (s : String) : Option (List (Nat × Nat)) :=
 def stripPrefix (pre s : String) : Option String :=
   if s.startsWith pre then some (s.drop pre.length).toString else none
 
-def step (h : Hist) (line : String) : Hist × String :=
+/-- driver state: the history so far and a snapshot of it after every history op, so that a
+crash line is answered against the history as it was when the image was taken (`at=<k>` = number
+of write / flush lines issued before). -/
+structure DState where
+  h : Hist
+  snaps : Array Hist
+
+def DState.push (s : DState) (h : Hist) : DState := ⟨h, s.snaps.push h⟩
+
+def step (s : DState) (line : String) : DState × String :=
+  let h := s.h
   match (line.trimAscii.toString.splitOn " ").filter (· ≠ "") with
-  | ["open", _] => (Hist.init 1, "ok")
+  | ["open", _] => (⟨Hist.init 1, #[Hist.init 1]⟩, "ok")
   | ["parts", n] =>
     match n.toNat? with
-    | some k => if k = 0 then (h, "bad-op") else ({ h with st := { h.st with nParts := k } }, "ok")
-    | none => (h, "bad-op")
+    | some k =>
+      if k = 0 then (s, "bad-op")
+      else
+        let h' := { h with st := { h.st with nParts := k } }
+        (⟨h', #[h']⟩, "ok")
+    | none => (s, "bad-op")
   | ["write", rows] =>
     match (rows.splitOn ";").mapM parseRow with
-    | some b => (h.write b, "ack")
-    | none => (h, "bad-op")
-  | ["flush"] => (h.flush, "ok")
-  | ["crash", vis, wal, _torn] =>
-    match stripPrefix "vis=" vis, stripPrefix "wal=" wal with
-    | some v, some w =>
-      match parseVis v, parseWal w with
-      | some v, some w => (h, showRows (recoveredRead h ⟨v, w⟩ ["fb", "ff", "fi", "fs"]))
-      | _, _ => (h, "bad-op")
-    | _, _ => (h, "bad-op")
-  | _ => (h, "bad-op")
+    | some b => (s.push (h.write b), "ack")
+    | none => (s, "bad-op")
+  | ["flush"] => (s.push h.flush, "ok")
+  | ["crash", at_, vis, wal, _torn] =>
+    match stripPrefix "at=" at_, stripPrefix "vis=" vis, stripPrefix "wal=" wal with
+    | some k, some v, some w =>
+      match k.toNat?, parseVis v, parseWal w with
+      | some k, some v, some w =>
+        match s.snaps[k]? with
+        | some hk =>
+          let d : Durable := ⟨v, w⟩
+          (s, showRows (recoveredRead hk d ["fb", "ff", "fi", "fs"])
+            ++ (if safeDurable hk d then "" else " window"))
+        | none => (s, "bad-op")
+      | _, _, _ => (s, "bad-op")
+    | _, _, _ => (s, "bad-op")
+  | _ => (s, "bad-op")
 
-partial def loop (i : IO.FS.Stream) (o : IO.FS.Stream) (h : Hist) : IO Unit := do
+partial def loop (i : IO.FS.Stream) (o : IO.FS.Stream) (s : DState) : IO Unit := do
   let line ← i.getLine
   if line.isEmpty then return ()
-  let (h', out) := step h line
+  let (s', out) := step s line
   o.putStrLn out
-  loop i o h'
+  loop i o s'
 
 def main : IO Unit := do
-  loop (← IO.getStdin) (← IO.getStdout) (Hist.init 1)
+  loop (← IO.getStdin) (← IO.getStdout) ⟨Hist.init 1, #[Hist.init 1]⟩
 
 end OG.C01
